@@ -10,6 +10,23 @@
   at any handle boundary, uncaches, in any interleaving.
 -/
 import Upnp.Lemmas.C18LiveStep
+/-
+  FULL-STRENGTH STATEMENT (not yet proved end to end):
+
+      theorem c18_history (ops : List Op) : judge (run ops) = true
+
+  i.e. the monitor accepts every item of every trace: scheduler snapshots (deadlock check), and the
+  event checks `okRequest` (single flight / failure cached), `okReturn` (shared outcome),
+  `okCancelled`, "never raised".  PROVED below, for all operation sequences: the snapshot part
+  (`snapshots_ok`, from the liveness invariant `InvL`, with `no_deadlock`, `no_orphan_marker`) and the
+  "never raised" part (`never_raises`).  MISSING: `okRequest` / `okReturn` / `okCancelled` for the events
+  emitted inside `step`.  The safety invariant `InvS` they follow from is defined in
+  `Lemmas/C18Safe.lean` and proved preserved by lookup / complete / cancel / uncache, by the store of a
+  released outcome (`invS_store`) and by the end of a task incl. removal of its own marker (`invS_end`,
+  `Lemmas/C18SafeStep.lean`); not yet done: the two remaining `lookupLoop` branches (wait on another
+  marker, install a marker) and the assembly.  Until then single-flight / shared-outcome rest on the
+  run-time monitor over the exhaustively enumerated schedules (see design/C18.md).
+-/
 namespace Upnp.C18
 open Upnp St
 
